@@ -91,6 +91,36 @@ def gen_669(rng):
     elif k < 0.40: data += bytes(rng.randrange(256) for _ in range(rng.choice((1, 7))))
     return data
 
+def gen_mtm(rng):
+    """a MultiTracker file with hostile fields: track numbers at and past the track count, 16-bit samples with odd lengths and loop
+    points above 2^31, zero channels / zero tracks, pans above 15, comment lengths past the end, data cut short"""
+    tracks = rng.choice((0, 1, 2, 3, 7)); patterns = rng.choice((0, 0, 1, 2)); modlen = rng.choice((0, 1, 5, 127, 128, 255, rng.randrange(0, 20)))
+    samples = rng.choice((0, 1, 2, 3, 8, 63)); channels = rng.choice((1, 2, 4, 8, 32, 0)) if rng.random() < 0.9 else rng.choice((33, 64, 255))
+    if rng.random() < 0.04: samples = rng.choice((64, 200))
+    rows = 64 if rng.random() < 0.96 else rng.choice((0, 63, 65))
+    extralen = rng.choice((0, 0, 40, 80, 17, 5000))
+    pan = bytes(rng.choice((0, 7, 8, 15, rng.randrange(16))) if rng.random() < 0.95 else rng.choice((16, 255)) for _ in range(32))
+    hdr = b"MTM\x10" + bytes(rng.randrange(32, 127) for _ in range(20)) + struct.pack("<HBBHBBBB", tracks, patterns, modlen, extralen, samples & 255, 0, rows, channels & 255) + pan
+    ins = b""; lens = []
+    for _ in range(min(samples, 63)):
+        ln = rng.choice((0, 1, 2, 3, 4, 17, 64, 301, rng.randrange(0, 1500)))
+        if rng.random() < 0.04: ln = rng.choice((0x10000000, 0x10000001, 0xffffffff))
+        lps = rng.choice((0, 1, ln // 2, ln, ln + 1, 0x80000000, 0xffffffff, 0x7fffffff, rng.randrange(0, max(1, ln + 3))))
+        lpe = rng.choice((0, 1, 2, 3, ln, ln + 1, ln // 2, 0x80000001, 0xffffffff, rng.randrange(0, max(1, ln + 3))))
+        attr = rng.choice((0, 0, 1, 1, 2, 255))
+        ins += bytes(rng.randrange(32, 127) for _ in range(22)) + struct.pack("<IIIBBB", ln & 0xffffffff, lps & 0xffffffff, lpe & 0xffffffff, rng.randrange(256), rng.randrange(65), attr); lens.append(ln)
+    orders = bytes(rng.choice((0, patterns, patterns + 1, rng.randrange(256))) for _ in range(128))
+    trks = bytes(rng.randrange(256) for _ in range(192 * tracks))
+    pats = b"".join(struct.pack("<H", rng.choice((0, tracks, tracks + 1, tracks + 2, 0xffff, rng.randrange(0, tracks + 2)))) for _ in range(32 * (patterns + 1)))
+    comment = bytes(rng.choice((0, 65, 66)) for _ in range(min(extralen, 200)))
+    smp = b"".join(bytes(rng.randrange(256) for _ in range(min(l, 4000))) for l in lens)
+    data = hdr + ins + orders + trks + pats + comment + smp
+    k = rng.random()
+    if k < 0.2 and len(smp): data = data[:len(data) - rng.randrange(1, len(smp) + 1)]
+    elif k < 0.32: data = data[:rng.randrange(4, len(data))]
+    elif k < 0.36: data += bytes(rng.randrange(256) for _ in range(rng.choice((1, 7))))
+    return data
+
 def compare_loader(ck, engine, what, blobs, mdir, ext, want_types, mk_req, gdrv, mmodel):
     """files that the library attributes to one loader: the extracted loader model piped through the extracted gate against the PREGATE dump of hook H1"""
     paths = []
@@ -152,6 +182,10 @@ def compare_loader(ck, engine, what, blobs, mdir, ext, want_types, mk_req, gdrv,
                 a = parts[4].split(); b = got_smp.split(); j = next((j for j in range(min(len(a), len(b))) if a[j] != b[j]), -1)
                 bad = "sample %d (len,lps,lpe,flg,data): loader %s, model %s" % (j, b[j] if j >= 0 else "?", a[j] if j >= 0 else "?")
             elif any(x.split()[2] != "64" for x in pre if x.startswith(("PAT ", "TRK ")) and "NULL" not in x): bad = "a pattern or track does not have 64 rows"
+            elif len(parts) > 6 and parts[6].split() != [",".join(x.split()[2:]) if "NULL" not in x else "NULL" for x in pre if x.startswith("PAT ")]:
+                bad = "pattern table (rows and track numbers per channel) differs"
+            elif len(parts) > 7 and parts[7].split()[:int(modl[1])] != ["%s,%s" % (x.split()[2], x.split()[3]) for x in pre if x.startswith("CHN ")][:int(modl[1])]:
+                bad = "channel defaults (volume, pan) differ"
             elif parts[0] != "RAW post=1": raise V.BuildError("%s built a module outside loader_postb for %s: its post-condition theorem would be false" % (what, lab))
             elif (parts[5] == "gate=REJECT") != (rec["ret"] != "0") and not (rec["ret"] != "0" and parts[5] == "gate=ok"):
                 bad = "gate decision: load returned %s, model %s" % (rec["ret"], parts[5])
@@ -418,6 +452,25 @@ def main():
                     blobs.append(("generated 669 #%d" % k, gen_669(rng)))
             compare_loader(ck, "c669load", "Model/C669Load.v (c669_raw)", blobs, mdir, "669", (b"Composer 669".hex(), b"UNIS 669".hex()),
                            lambda ty, blob: "Q %s" % blob.hex(), gdrv, mmodel)
+        finally:
+            shutil.rmtree(mdir, ignore_errors=True)
+    # ---- (f) the MultiTracker loader: Model/MtmLoad.v against the PREGATE dump of hook H1
+    if not replay or json.load(open(replay)).get("engine") == "mtmload":
+        gdrv = V.build_driver("c03_drv", ["c03_drv.c"]); mmodel = V.ocaml_build("modload")
+        mdir = tempfile.mkdtemp(prefix="vp-c03t-", dir="/var/tmp")
+        try:
+            if replay:
+                rpj = json.load(open(replay)); blobs = [(rpj["label"], bytes.fromhex(rpj["file_hex"]))]
+            else:
+                blobs = []
+                for f in V.corpus_files():
+                    if f.lower().endswith(".mtm") and os.path.getsize(f) < 80000:
+                        data = open(f, "rb").read(); lab = os.path.relpath(f, V.REPO); blobs.append((lab, data))
+                        for cut in (65, 66, 67, len(data) - 1, len(data) // 2, len(data) // 3): blobs.append(("%s cut at %d" % (lab, cut), data[:cut]))
+                for k in range(400 if tier == "quick" else 20000):
+                    blobs.append(("generated MTM #%d" % k, gen_mtm(rng)))
+            compare_loader(ck, "mtmload", "Model/MtmLoad.v (mtm_raw)", blobs, mdir, "mtm", (b"Multitracker".hex(),),
+                           lambda ty, blob: "T %s" % blob.hex(), gdrv, mmodel)
         finally:
             shutil.rmtree(mdir, ignore_errors=True)
     ck.cov["rule"] = ("every file of test-dev/data, data/m and openmpt/* loaded by path and (with XMP_SMPCTL_SKIP) through a random stream entry point; core-format modules under all 11 player modes; "
